@@ -183,23 +183,25 @@ pub mod boundary {
                     )
                 };
 
-                return this == this;
+                // Comparing the slice with itself is intended, see above.
+                #[allow(clippy::eq_op)]
+                let eq = this == this;
+                return eq;
             }
 
             // Lock the two lists in the order of their addresses, so that
             // two threads comparing the same two lists in opposite order
             // cannot deadlock.
-            let (this, other) = if Arc::as_ptr(&self.inner.0)
-                < Arc::as_ptr(&other.inner.0)
-            {
-                let this = self.inner.0.lock().unwrap();
-                let other = other.inner.0.lock().unwrap();
-                (this, other)
-            } else {
-                let other = other.inner.0.lock().unwrap();
-                let this = self.inner.0.lock().unwrap();
-                (this, other)
-            };
+            let (this, other) =
+                if Arc::as_ptr(&self.inner.0) < Arc::as_ptr(&other.inner.0) {
+                    let this = self.inner.0.lock().unwrap();
+                    let other = other.inner.0.lock().unwrap();
+                    (this, other)
+                } else {
+                    let other = other.inner.0.lock().unwrap();
+                    let this = self.inner.0.lock().unwrap();
+                    (this, other)
+                };
 
             // SAFETY: The rawlist represents a slice of T::Transformed so
             // we can safely construct a slice from it's parts as long as we
@@ -501,8 +503,9 @@ impl PartialEq for ErasedList {
 
                 // SAFETY: The value is valid because it is within the length
                 // of the list.
-                let is_eq =
-                    unsafe { (this.vtable.eq_fn)(elem.as_ptr(), elem.as_ptr()) };
+                let is_eq = unsafe {
+                    (this.vtable.eq_fn)(elem.as_ptr(), elem.as_ptr())
+                };
 
                 if !is_eq {
                     return false;
